@@ -537,7 +537,7 @@ class RunCrateProvenanceManager(ProvenanceManager, ABC):
             self.files_map[path] = part["@id"]
             if part["@id"] not in self.graph:
                 self.graph[part["@id"]] = part
-            else:
+            elif "alternateName" in part:
                 if not isinstance(
                     self.graph[part["@id"]]["alternateName"], MutableSequence
                 ):
